@@ -46,7 +46,11 @@ func RunC15(c *Ctx, r *Report) {
 	}
 	// 1. initMAC ok dominates Marshal, on the asserted EAP-AKA' object of this packet
 	okInit := onNilErrEdge(errResult(ic[0]), mc[0].Block())
-	if ta, ok := ic[0].Call.Args[0].(*ssa.TypeAssert); ok {
+	recvObj := ic[0].Call.Args[0]
+	if ex, ok := recvObj.(*ssa.Extract); ok && ex.Index == 0 {
+		recvObj = ex.Tuple // the checked form: p, ok := eap.EapTypeData.(*EapAkaPrime)
+	}
+	if ta, ok := recvObj.(*ssa.TypeAssert); ok {
 		if base, fld, ok := fieldLoad(ta.X); !ok || fld != "EapTypeData" || paramIndex(fn, base) != 0 {
 			okInit = false
 		}
@@ -131,7 +135,7 @@ func RunC15(c *Ctx, r *Report) {
 	// 5. guarded assertion / bounds: E2 on the function
 	e := &E2{C: c, R: r, Prefix: prefix + "nocrash."}
 	e.Run([]*ssa.Function{fn})
-	r.Floors[prefix+"nocrash.assert.type"] = 1
+	r.Floors[prefix+"nocrash.assert.type"] = 0 // a checked assertion has no obligation
 
 	// 6. receive path
 	rule6 := prefix + "receive-path-octets"
